@@ -49,6 +49,16 @@ func genIOCase(r *sim.Rng, tier string, idx int) *IOCase {
 		if w.XZ != nil && w.XZ.BlockSize > 0 && int64(lim) > 12*w.XZ.BlockSize {
 			lim = int(12 * w.XZ.BlockSize)
 		}
+		// (the BinaryTree matcher is quadratic on runs: every faulted repetition
+		// of a 100 KB run costs seconds)
+		switch {
+		case w.XZ != nil:
+			lim = maxPayloadFor(w.XZ.Matcher, 0, w.XZ.DictCap, lim)
+		case w.LZ != nil:
+			lim = maxPayloadFor(w.LZ.Matcher, 0, w.LZ.DictCap, lim)
+		case w.L2 != nil:
+			lim = maxPayloadFor(w.L2.Matcher, 0, w.L2.DictCap, lim)
+		}
 		if r.Chance(1, 10) {
 			// incompressible data longer than the encoder's ring buffer: raw chunks
 			// copied out of the dictionary in two pieces, several chunks per stream
